@@ -28,4 +28,32 @@ theorem startswith_sep (f : Str) : startswith f ['/'] = decide (f.head? = some P
 theorem startswith_dds (f : Str) :
     startswith f ['.', '.', '/'] = (['.', '.', '/'] : Str).isPrefixOf f := rfl
 
+/-! ### `secure_filename`: the prelude's primitives against the model's own copies -/
+
+/-- the model's `str.isspace` (a regenerated table) is the prelude's (a closed formula) -/
+theorem isSpace_eq (c : Char) : Paths.isSpace c = Py.isSpace c := by
+  unfold Paths.isSpace Py.isSpace
+  generalize c.toNat = n
+  rw [Bool.eq_iff_iff]
+  simp [Gen.Paths.pySpaces]
+  omega
+
+theorem splitWsAux_eq (s cur : Str) : Pre.splitWsAux s cur = Paths.wordsAux s cur := by
+  induction s generalizing cur with
+  | nil => simp [Pre.splitWsAux, Paths.wordsAux]
+  | cons c t ih =>
+    simp only [Pre.splitWsAux, Paths.wordsAux, isSpace_eq, ih, List.isEmpty_iff]
+
+theorem splitWs_eq (s : Str) : Pre.splitWs s = Paths.pyWords s := splitWsAux_eq s []
+
+theorem join_eq (j : Str) (ws : List Str) : Pre.join j ws = Paths.joinWith j ws := by
+  induction ws with
+  | nil => rfl
+  | cons w t ih =>
+    cases t with
+    | nil => rfl
+    | cons w2 t2 => simp only [Pre.join, Paths.joinWith, ih]
+
+theorem stripChars_eq (s chars : Str) : Pre.stripChars s chars = Paths.stripOf chars s := rfl
+
 end Wz.PyFnsPaths
